@@ -1,6 +1,6 @@
 #!/usr/bin/env python3
 """Writes MANIFEST.json from the table below (kept as code so that it always validates)."""
-import json, os
+import json, os, re
 VERIF = os.path.dirname(os.path.dirname(os.path.abspath(__file__)))
 LEVEL_NOTE = ("Trusted: Lean 4.33 kernel (axioms propext, Classical.choice, Quot.sound only; audited by #print axioms each run); "
               "the Go fact extractor (go/extract) and the differential harness + Lean driver that tie the hand-written model to /repo's working tree; "
@@ -10,8 +10,10 @@ sys.path.insert(0, os.path.join(VERIF, 'tools'))
 sys.path.insert(0, os.path.join(VERIF, 'tools', 'checks'))
 CLAIMED = {}
 for fn in sorted(os.listdir(os.path.join(VERIF, 'tools', 'checks'))):
-    if fn.startswith('C') and fn.endswith('.py'):
+    if re.fullmatch(r'C\d\d\.py', fn):  # Cxx_part.py modules are helpers of a Cxx.py
         mod = importlib.import_module(fn[:-3])
+        if getattr(mod, 'DISABLED', None):
+            continue
         CLAIMED[fn[:-3]] = mod.MANIFEST
 NOT_YET = {}
 props = [json.loads(l) for l in open(os.path.join(VERIF, 'properties.jsonl'))]
@@ -32,7 +34,7 @@ m = {
  'version': 1,
  'setup_cmd': './setup.sh',
  'hooks': {'guard': 'verif', 'enable': 'go build -tags verif (the harness is built with this tag against /repo through go/go.work)',
-           'baseline_off_cmd': 'python3 tools/baseline_check.py /repo', 'source_commits': [], 'add_only': True},
+           'baseline_off_cmd': 'python3 tools/baseline_check.py /repo', 'source_commits': ['e3a91674445f8de0d6690e492ec57a5debbe6e24', '6186357351027602cdfdac25fca998629bf80a67'], 'add_only': True},
  'engines': [
    {'name': 'lean-proofs', 'path': 'lean/', 'serves_properties': sorted(CLAIMED), 'kind_free_text': 'Lean 4 model (RoModel), proofs (RoProofs), property theorems (RoProps), regenerated fact tables (RoGen), driver executable'},
    {'name': 'go-extractor', 'path': 'go/extract', 'serves_properties': sorted(CLAIMED), 'kind_free_text': 'go/ast fact extractor regenerating lean/RoGen from /repo on every run'},
